@@ -730,8 +730,34 @@ class Tab:
                     self.bad("T14", "origin%d:index%d" % (o, i),
                              "PENTAGON_ROTATIONS[%d][%d] = %d turns index digit %d into %d; PENTAGON_ROTATIONS_REVERSE[%d][%d] = %d turns it into %d instead of back into %d (localIjToCell would return a different cell)"
                              % (o, i, r, i, i2, o, i2, m_, back, i), self.T.where("PENTAGON_ROTATIONS_REVERSE"))
+        # the other direction, for the base-cell direction seen from a pentagon origin: localIjkToCell turns an arriving direction d into
+        # ccw^R(d), R = PENTAGON_ROTATIONS_REVERSE[L][d]; cellToLocalIjk turns a base-cell direction e into cw^r(e), r = PENTAGON_ROTATIONS[L][e]
+        # (or refuses it): wherever both succeed they must be inverse
+        n2 = 0
+        for L in range(7):
+            if L == K:
+                continue
+            for d in range(1, 7):
+                R = PRR[L][d]
+                if R < 0:
+                    continue
+                e = d
+                for _ in range(R):
+                    e = f1(e)
+                if e == K or FD[L][e] or PR[L][e] < 0:
+                    continue
+                back = e
+                for _ in range(PR[L][e]):
+                    back = f2(back)
+                n2 += 1
+                if back != d:
+                    nbad += 1
+                    self.bad("T14", "origin%d:dir%d:back" % (L, d),
+                             "PENTAGON_ROTATIONS_REVERSE[%d][%d] = %d sends the arriving direction %d to base-cell direction %d, which PENTAGON_ROTATIONS[%d][%d] = %d unfolds to direction %d: "
+                             "both conversions succeed and disagree" % (L, d, R, d, e, L, e, PR[L][e], back), self.T.where("PENTAGON_ROTATIONS_REVERSE"))
         if not nbad:
-            self.ok("T14", n, "%d (origin digit, index digit) pairs: PENTAGON_ROTATIONS_REVERSE undoes PENTAGON_ROTATIONS (or lands on the deleted K direction, which fails)" % n)
+            self.ok("T14", n + n2, "%d (origin digit, index digit) pairs: PENTAGON_ROTATIONS_REVERSE undoes PENTAGON_ROTATIONS (or lands on the deleted K direction, which fails); "
+                    "%d (origin digit, arriving direction) pairs unfold back to the same direction or are refused" % (n, n2))
 
     # ------------------------------------------------------------- T20
     def T20(self):
